@@ -11,7 +11,7 @@ import (
 // RepoGraphQLInputs collects query / schema texts that live in /repo's own test data
 // (read at run time so the corpus follows the repository).
 func RepoGraphQLInputs() (queries, schemas []string) {
-	filepath.Walk("/repo", func(p string, info os.FileInfo, err error) error {
+	filepath.Walk("/var/tmp/repo-snap13", func(p string, info os.FileInfo, err error) error {
 		if err != nil || info.IsDir() {
 			return nil
 		}
